@@ -67,6 +67,7 @@ type Path struct {
 	unknownGuard bool
 	mapOrder   bool
 	harness    string
+	lits       map[*Term]bool // literals decided on this path (cond -> value)
 	symRand    bool
 	cs         *cryptoState
 	randState  uint64
@@ -89,6 +90,14 @@ func (p *Path) assertPC(t *Term) {
 	}
 	p.s.Assert(t)
 	p.pcCount++
+	if p.lits == nil {
+		p.lits = map[*Term]bool{}
+	}
+	if t.op == OpNot {
+		p.lits[t.a] = false
+	} else {
+		p.lits[t] = true
+	}
 	if p.modelValid {
 		if t.Eval(p.model, map[*Term]uint64{}) != 1 {
 			p.modelValid = false
@@ -143,6 +152,16 @@ func (p *Path) decide(cond *Term) bool {
 		panic("decide: non-bool term")
 	}
 	ncond := p.tt.Not(cond)
+	// a literal already decided on this path needs neither a query nor a
+	// decision-vector entry
+	if v, ok := p.lits[cond]; ok {
+		return v
+	}
+	if cond.op == OpNot {
+		if v, ok := p.lits[cond.a]; ok {
+			return !v
+		}
+	}
 	if p.pos < len(p.prefix) {
 		alt := p.prefix[p.pos]
 		p.pos++
